@@ -22,6 +22,7 @@ import (
 	"io"
 	"os"
 	"path/filepath"
+	"regexp"
 	"sort"
 	"strconv"
 	"strings"
@@ -1429,6 +1430,24 @@ func checkCase(c cliCase) string { return judge(c).msg }
 // ---------------------------------------------------------------------------
 // bookkeeping
 
+var longNumberRE = regexp.MustCompile(`-?[0-9][0-9.eE+-]{64,}`)
+
+func hasLongNumber(c cliCase) bool {
+	for _, d := range c.Docs {
+		if len(d) >= 65 && longNumberRE.MatchString(d) {
+			return true
+		}
+	}
+	for _, f := range c.Files {
+		for _, d := range f.Docs {
+			if len(d) >= 65 && longNumberRE.MatchString(d) {
+				return true
+			}
+		}
+	}
+	return false
+}
+
 func layoutClass(o opts) string {
 	switch {
 	case o.compact:
@@ -1491,6 +1510,14 @@ func do(sub string, c cliCase) string {
 		}
 		if e.diags > 1 {
 			rec.Class("event/several-diagnostics")
+		}
+		if hasLongNumber(c) {
+			rec.Class(fmt.Sprintf("numbers/literal of 65 bytes or more,layout=%s,stream=%t,files=%t", layoutClass(o), o.stream, len(c.Files) > 0))
+			if e.outputs > 0 && !o.yaml && !o.rawIn {
+				key, _ := json.Marshal([]any{c.Docs, c.Files})
+				rec.NT(fmt.Sprintf("%q|%s", c.argv(), key))
+				rec.Class("nontrivial")
+			}
 		}
 		if o.rawIn {
 			all := append([]lineSpec{}, c.Lines...)
@@ -1564,6 +1591,59 @@ func do(sub string, c cliCase) string {
 var docPool = []string{`1`, `2`, `3`, `0`, `null`, `false`, `true`, `"a"`, `"x y"`, `""`, `"a\u0000b"`, `"l1\nl2"`, `"é☃"`, `"\"q\"\\"`,
 	`[]`, `{}`, `[1,[2]]`, `{"b":1,"a":[]}`, `[null]`, `[false,"s"]`, `{"a":{"b":[1,2]}}`, `1.0`, `1e2`, `100000000000000000000`, `-0`, `0.10`,
 	`[1.0,"a\u0000"]`, `-5`, `"gojq: x"`, `[[[[]]]]`, `{"":null}`, `"t\tb"`, `[1,2,3]`, `{"a":"z"}`, `"\u0000"`, `[[],{}]`, `1.5`, `"null"`}
+
+// number literals with long spellings: the command has to print the literal
+// the library passes through, whatever its length.
+
+// digits gives n decimal digits determined by seed, the first one not zero.
+func digits(n, seed int) string {
+	b := make([]byte, max(n, 0))
+	x := uint32(seed)*2654435761 + 12345
+	for i := range b {
+		x = x*1103515245 + 12345
+		b[i] = byte('0' + (x>>16)%10)
+	}
+	if n > 0 && b[0] == '0' {
+		b[0] = byte('1' + seed%9)
+	}
+	return string(b)
+}
+
+// longNumber spells one literal: shape int | dec | mant | mantfrac | tiny.
+func longNumber(shape string, n, seed int, neg bool) string {
+	var s string
+	switch shape {
+	case "dec":
+		s = digits(1+seed%3, seed+1) + "." + digits(n, seed)
+	case "mant":
+		s = digits(n, seed) + "e" + strconv.Itoa(seed%9)
+	case "mantfrac":
+		s = "1." + digits(n, seed) + "E-" + strconv.Itoa(1+seed%7)
+	case "tiny":
+		s = "0." + strings.Repeat("0", n) + "1"
+	default:
+		s = digits(n, seed)
+	}
+	if neg {
+		s = "-" + s
+	}
+	return s
+}
+
+var numberShapes = []string{"int", "dec", "mant", "mantfrac", "tiny"}
+var numberLens = []int{30, 63, 64, 65, 66, 100, 300, 70, 80}
+
+var longNumberDocs = func() []string {
+	var out []string
+	for i, n := range numberLens {
+		a := longNumber(numberShapes[i%len(numberShapes)], n, 3*i+1, i%2 == 1)
+		b := longNumber(numberShapes[(i+2)%len(numberShapes)], n, 5*i+2, i%3 == 0)
+		out = append(out, []string{a, `[` + b + `,1,` + a + `]`, `{"a":` + a + `,"b":{"c":[` + b + `]}}`}[i%3])
+	}
+	return out
+}()
+
+func init() { docPool = append(docPool, longNumberDocs...) }
 
 var simpleDocs = []string{`1`, `2`, `3`, `null`, `false`, `true`, `"a"`, `""`, `[]`, `{}`, `[1,[2]]`, `0`, `"x y"`}
 
@@ -1830,7 +1910,8 @@ func genDocText(t *rapid.T, depth int) string {
 		}
 		return "{" + strings.Join(parts, ",") + "}"
 	}
-	return rapid.SampledFrom([]string{`1`, `2`, `0`, `null`, `false`, `true`, `"a"`, `""`, `"x y"`, `1.0`, `1e2`, `-0`, `100000000000000000000`, `"a\u0000b"`, `"é"`, `[]`, `{}`}).Draw(t, "scalar")
+	return rapid.SampledFrom([]string{`1`, `2`, `0`, `null`, `false`, `true`, `"a"`, `""`, `"x y"`, `1.0`, `1e2`, `-0`, `100000000000000000000`, `"a\u0000b"`, `"é"`, `[]`, `{}`,
+		longNumber("int", 65, 4, false), longNumber("dec", 70, 9, true), longNumber("mant", 80, 2, true), longNumber("int", 300, 5, true), longNumber("tiny", 66, 0, false)}).Draw(t, "scalar")
 }
 
 // queries that keep several inputs alive at once (or, as controls, do not)
@@ -2161,8 +2242,88 @@ rawSets:
 		rec.Exhaustive(fmt.Sprintf("-R: %d line lengths x %d contents x %d modes", len(rawLens), len(rawStyles), len(rawModes)), complete)
 	}
 
+	// long number literals through pass-through queries in every layout
+	passQueries := []string{`.`, `.a`, `.[]`, `[.[]]`, `max`, `{a: .}`, `tojson`, `@text`, `tostring`, `.[0]`, `.a?`, `.[]?`, `[.[]?]`, `[., .]`, `first(.[]?)`, `..`,
+		`[inputs]`, `.b.c[0]?`, `[.[]?] | max`, `{a: .} | .a`, `. as $x | [$x]`, `[.] | sort | .[0]`, `"v=\(.)"`, `getpath(["a"])?`, `to_entries?`, `[..]`, `., input`}
+	numModes := [][]string{{"-c"}, {}, {"--indent", "3"}, {"--tab"}, {"-r"}, {"-j"}, {"--raw-output0"}, {"--indent", "0"}, {"-c", "-s"}, {"-c", "--stream"}, {"-n", "-c"}, {"--indent", "7", "-e"}}
+	complete = true
+	before = rec.Violations()
+	for si, shape := range numberShapes {
+		for li, n := range numberLens {
+			for neg := 0; neg < 2; neg++ {
+				a := longNumber(shape, n, 11*si+li+neg, neg == 1)
+				b := longNumber(numberShapes[(si+1)%len(numberShapes)], numberLens[(li+2)%len(numberLens)], 13*li+si, neg == 0)
+				for di, doc := range []string{a, `[` + a + `,1,` + b + `]`, `{"a":` + a + `,"b":{"c":[` + b + `]}}`, `[[` + a + `],{"a":` + b + `}]`} {
+					idx++
+					if !rec.Mine(idx) || rec.Violations() > before+6 {
+						continue
+					}
+					k := si + 3*li + 5*neg + 7*di
+					c := cliCase{Pre: numModes[k%len(numModes)], Text: passQueries[k%len(passQueries)], Docs: []string{doc, b}}
+					if k%5 == 0 {
+						c.Files, c.Docs = []fileSpec{{Kind: "file", Docs: []string{doc}}, {Kind: "file", Docs: []string{b, doc}, Sep: " "}}, []string{}
+					}
+					if msg := do("numbers-fixed", c); msg != "" {
+						rec.Direct("numbers-fixed", c, "%s", msg)
+						complete = false
+					}
+				}
+			}
+		}
+	}
+	rec.Exhaustive(fmt.Sprintf("long number literals: %d shapes x %d lengths x 2 signs x 4 positions", len(numberShapes), len(numberLens)), complete)
+
+	rec.Rapid(t, "long-numbers", rec.Scale(1500, 25000), func(t *rapid.T) {
+		lit := func() string {
+			n := rapid.SampledFrom([]int{30, 63, 64, 65, 66, 100, 300, 64, 65}).Draw(t, "len") + rapid.SampledFrom([]int{0, 0, 0, 1, -1, 7}).Draw(t, "delta")
+			return longNumber(rapid.SampledFrom(numberShapes).Draw(t, "shape"), n, rapid.IntRange(0, 999).Draw(t, "seed"), rapid.Bool().Draw(t, "neg"))
+		}
+		doc := func() string {
+			switch rapid.IntRange(0, 5).Draw(t, "position") {
+			case 0, 1:
+				return lit()
+			case 2:
+				return `[` + lit() + `,` + rapid.SampledFrom(simpleDocs).Draw(t, "other") + `,` + lit() + `]`
+			case 3:
+				return `{"a":` + lit() + `,"b":{"c":[` + lit() + `]}}`
+			case 4:
+				return `[[` + lit() + `],{"a":` + lit() + `,"b":` + lit() + `}]`
+			}
+			return rapid.SampledFrom(simpleDocs).Draw(t, "plain")
+		}
+		c := cliCase{Docs: []string{}}
+		n := rapid.IntRange(1, 3).Draw(t, "docs")
+		var docs []string
+		for i := 0; i < n; i++ {
+			docs = append(docs, doc())
+		}
+		c.Sep = rapid.SampledFrom(seps).Draw(t, "sep")
+		c.End = rapid.SampledFrom([]string{"", "\n"}).Draw(t, "end")
+		genFlags(t, &c, [9]int{2, 2, 1, 3, 2, 3, 1, 1, 1})
+		where := rapid.IntRange(0, 9).Draw(t, "where")
+		switch {
+		case where == 0: // two files
+			c.Dash = false
+			c.Files = []fileSpec{{Kind: "file", Docs: docs[:1], End: c.End}, {Kind: "file", Docs: docs, Sep: c.Sep}}
+			c.Sep, c.End = "", ""
+		case where == 1: // --stream
+			c.Docs = docs
+			c.Pre = append([]string{"--stream"}, c.Pre...)
+		default:
+			c.Docs = docs
+		}
+		if rapid.IntRange(0, 4).Draw(t, "alg") == 0 {
+			algQuery(t, &c, bias{val: 1, dot: 6, iter: 4, err: 1, empty: 1, input: 1, arr: 3, cond: 1, note: 1})
+		} else {
+			c.Text = rapid.SampledFrom(passQueries).Draw(t, "query")
+		}
+		if msg := do("long-numbers", c); msg != "" {
+			t.Fatalf("%s", rec.Fail("long-numbers", c, "%s", msg))
+		}
+	})
+
 	// -R / --raw-input / -nR with input(s) / over files; -R -s as control
-	rec.Rapid(t, "raw-long", rec.Scale(1500, 40000), func(t *rapid.T) {
+	rec.Rapid(t, "raw-long", rec.Scale(1500, 30000), func(t *rapid.T) {
 		genLine := func() lineSpec {
 			switch rapid.IntRange(0, 9).Draw(t, "linekind") {
 			case 0, 1, 2:
@@ -2229,7 +2390,7 @@ rawSets:
 	anyFlags := [9]int{2, 2, 1, 3, 1, 2, 3, 1, 1}
 
 	// 2..4 input sources named on the command line
-	rec.Rapid(t, "files", rec.Scale(2000, 60000), func(t *rapid.T) {
+	rec.Rapid(t, "files", rec.Scale(2000, 50000), func(t *rapid.T) {
 		c := cliCase{Docs: []string{}}
 		mode := rapid.SampledFrom([]string{"json", "json", "json", "yaml", "stream"}).Draw(t, "mode")
 		n := rapid.IntRange(2, 4).Draw(t, "files")
@@ -2293,7 +2454,7 @@ rawSets:
 	// --stream: the events the command feeds to the query are the library's
 	// tostream events of each complete document; they stay intact when the
 	// query (or -s) keeps several of them
-	rec.Rapid(t, "stream", rec.Scale(2500, 60000), func(t *rapid.T) {
+	rec.Rapid(t, "stream", rec.Scale(2500, 50000), func(t *rapid.T) {
 		var c cliCase
 		n := rapid.IntRange(0, 4).Draw(t, "docs")
 		for i := 0; i < n; i++ {
@@ -2322,7 +2483,7 @@ rawSets:
 
 	// error continuation: errors at chosen inputs and output positions, type
 	// errors from data, malformed tails
-	rec.Rapid(t, "continue", rec.Scale(3000, 130000), func(t *rapid.T) {
+	rec.Rapid(t, "continue", rec.Scale(3000, 115000), func(t *rapid.T) {
 		var c cliCase
 		genStream(t, &c, streamBias{maxDocs: 5, tailOdds: 3})
 		genFlags(t, &c, anyFlags)
@@ -2337,7 +2498,7 @@ rawSets:
 	})
 
 	// halt and halt_error: status modulo 256, message, nothing afterwards
-	rec.Rapid(t, "halt", rec.Scale(3000, 120000), func(t *rapid.T) {
+	rec.Rapid(t, "halt", rec.Scale(3000, 105000), func(t *rapid.T) {
 		var c cliCase
 		genStream(t, &c, streamBias{maxDocs: 5, tailOdds: 7})
 		genFlags(t, &c, anyFlags)
@@ -2348,7 +2509,7 @@ rawSets:
 	})
 
 	// --exit-status bookkeeping
-	rec.Rapid(t, "exit", rec.Scale(2500, 95000), func(t *rapid.T) {
+	rec.Rapid(t, "exit", rec.Scale(2500, 85000), func(t *rapid.T) {
 		var c cliCase
 		genStream(t, &c, streamBias{maxDocs: 4, tailOdds: 9})
 		genFlags(t, &c, [9]int{1, 1, 1, 3, 1, 1, 7, 1, 1})
@@ -2363,7 +2524,7 @@ rawSets:
 	})
 
 	// terminators, raw strings, NUL rejection, layouts
-	rec.Rapid(t, "terminators", rec.Scale(3000, 120000), func(t *rapid.T) {
+	rec.Rapid(t, "terminators", rec.Scale(3000, 105000), func(t *rapid.T) {
 		var c cliCase
 		genStream(t, &c, streamBias{maxDocs: 4, tailOdds: 9, hostile: true})
 		genFlags(t, &c, [9]int{3, 3, 4, 2, 2, 3, 1, 1, 1})
@@ -2374,7 +2535,7 @@ rawSets:
 	})
 
 	// -n / -s with input and inputs
-	rec.Rapid(t, "inputs", rec.Scale(2500, 95000), func(t *rapid.T) {
+	rec.Rapid(t, "inputs", rec.Scale(2500, 85000), func(t *rapid.T) {
 		var c cliCase
 		genStream(t, &c, streamBias{maxDocs: 5, tailOdds: 2})
 		genFlags(t, &c, [9]int{1, 1, 1, 4, 1, 1, 2, 4, 3})
